@@ -109,6 +109,7 @@ type Obligation struct {
 	MaxPaths int      `json:"maxpaths"`
 	Asserts  []string `json:"asserts"` // labels that must be reached on a satisfiable path
 	AllowPanic bool   `json:"allow_panic"` // reachable panics are not findings
+	AllowUnwind bool  `json:"allow_unwind"` // paths cut at the unwinding bound are a stated bound, not a failure
 	Expect   string   `json:"expect"`   // "" (must hold) | documentation only
 	Note     string   `json:"note"`
 	FinalLimitS int   `json:"final_limit_s"`
@@ -230,7 +231,7 @@ func (p *Program) newExec(ob *Obligation, prefix []int) *Exec {
 		freshSeq: map[string]int{}, groupIv: map[string]*smt.Term{}, modKinds: map[int]*ModInfo{},
 		atoms: map[string]bool{}, assertsSeen: map[string]int{}, reached: map[string]bool{},
 		funcs: map[string]bool{}, stubs: map[string]bool{}, native: map[string]interface{}{},
-		blobs: map[*ArrObj]BigVal{}, digests: map[*ArrObj]*smt.Term{}, signedMsgs: map[*ArrObj]*SignedMsg{}, derBlobs: map[*ArrObj][]derElem{}, fs: map[string]*fsFile{}, fileContent: map[string]string{}, digestVals: map[*Array]*smt.Term{}, initDone: map[*ssa.Package]bool{},
+		blobs: map[*ArrObj]BigVal{}, digests: map[*ArrObj]*smt.Term{}, signedMsgs: map[*ArrObj]*SignedMsg{}, derBlobs: map[*ArrObj][]derElem{}, fs: map[string]*fsFile{}, fileContent: map[string]string{}, u64: map[*Cell]u64tag{}, digestVals: map[*Array]*smt.Term{}, initDone: map[*ssa.Package]bool{},
 		birth: map[string]int{}, maxBirthMemo: map[int]int{}, oracleSeen: map[int]bool{}}
 }
 
